@@ -51,9 +51,22 @@ STRESS = [
     "@@namechars :: '('\nstart = 'a' ;", "@@whitespace :: /(?P<n>a)(?P=m)/\nstart = 'a' ;",
     'start = "\\N{foo}" ;', 'start = "\\x" ;', 'start = "\\u12" ;', "start = '\\U00110000' ;", 'start = "\\777" ;', "start = 'a\\' ;",
     "start = `{[1]:2}` ;", "start = `[1]+1` ;", "start = `1/0` ;", "start = `{x}` ;", "start = `{0!z}` ;", "start = x:'a' `{x:>{x}}` ;",
-    "start = `'%s' % ()` ;", "start = `-''` ;", "start = `{}{}`;", "start = `{`;", "start = `9**9**9`;",
+    "start = `'%s' % ()` ;", "start = `-''` ;", "start = `{}{}`;", "start = `{`;",
     "start = /(/ ;", "start = /[/ 'a' ;", "start = ?'(?P<n>a)(?P=m)' ;", "start = /a{2,1}/ ;", "start = /(?i)a/ 'b' ;", "start = /a**/ ;",
     "start = nosuch%{'a'} ;", "start = 'a' nosuch.{'b'}+ ;", "start = {} {} 'a' ;", "start = {()}+ 'a' ;",
+    # numbers and repetition counts beyond what Python converts / compiles
+    ("start = @int $ ;", ['7' * 5000, '-' + '1' * 4400]), ("start = @uint 'a' ;", ['9' * 4301 + ' a']), ("start = @float $ ;", ['1' * 5000 + '.5', '1e' + '9' * 400]),
+    "start = /a{99999999999}/ $ ;", "start = /(a{65536}){65536}/ ;", "@@whitespace :: /x{99999999999}/\nstart = 'a' ;",
+    # patterns whose text strains the quoting of the source generators and printers
+    'start = /\\\\\'"/ ;', "start = /a\\\\/ 'b' ;", 'start = ?"\\\\" ;',
+    # left recursion through a positive closure / join (the analysis recurses on nullability)
+    "start = {start}+ 'y' | 'x' ;", "start = ','%{start}+ 'y' | 'x' ;", "start = a 'y' | 'x' ;\na = {start}+ ;",
+    # a constant that fails inside an optional / closure / choice within a called rule (the failure crosses frames that only
+    # unwind on parse failures), followed by more input
+    ("start = u:'u' {a}* v:'v' $ ;\na = x:'x' [ 'q' y:`1/0` ] ;", ['u x x q v', 'u x q v', 'u x v', 'u v', 'u x q']),
+    ("start = {a}* 'v' $ ;\na = 'x' ( 'q' `1/0` | 'r' ) ;", ['x q v', 'x r v', 'x q x r v', 'v']),
+    ("start = a a 'v' ;\na = 'x' { 'q' `{[1]:2}` } ;", ['x x v', 'x q x v', 'x x q v']),
+    ("start = [a] 'x' 'q' $ ;\na = 'x' [ 'q' `1/0` ] 'z' ;", ['x q', 'x q z', 'x z']),
 ]
 
 
@@ -173,7 +186,8 @@ def run(tier):
     # (a skip loop that does not advance must still terminate), invalid regular expressions, invalid escapes, constants whose
     # evaluation raises
     stress_texts = [list(t) for t in ['', 'a', 'a b', 'ab', 'a  b', 'x', 'a xx b', '# c\na b', 'a a', 'a b a', ' a b ']]
-    cases4 = [default_case(e, stress_texts, label='stress', timeout=6) for e in STRESS]
+    cases4 = [default_case(e if isinstance(e, str) else e[0], stress_texts + ([] if isinstance(e, str) else [list(t) for t in e[1]]),
+                           label='stress', timeout=6) for e in STRESS]
     impl4 = run_impl(cases4, fn=run_error_case, chunk=1)
     for c, im in zip(cases4, impl4):
         ck.count(evaluations=1, traces=1)
